@@ -50,6 +50,8 @@ type Op struct {
 	Frag    []int  `json:",omitempty"`
 	DelayMS int64  `json:",omitempty"`
 	At      int    `json:",omitempty"`
+	Traffic []Op   `json:",omitempty"` // gc (C07): client writes placed inside the pass through a second connection
+	CloseAt int    `json:",omitempty"` // gc (C07): a clean shutdown is started at the n-th disk mutation of the pass; the process exits when it returns
 }
 
 func (o Op) String() string {
